@@ -740,7 +740,7 @@ def join_pmappings(
             pg, perm = left[best_k][best_i]
             first, second = pg.split_in_half()
             left[best_k][best_i] = (first, perm)
-            left[best_k].append((second, perm))
+            left[best_k].insert(best_i + 1, (second, perm))
 
         # ======================================================================
         # Remove dead tensors from left and right. This happens after grouping because
